@@ -18,6 +18,7 @@ PROGRAMS = {
     "range-link-fail": "@db later\n@defl later, 300\n",
     "export-fail": "lab: nop\n@defl foo, @sizeof lab\n",          # unsolvable, never referenced: only an exporter notices
     "missing-include": "@include \"absent.inc\"\n",
+    "assert-link-fail": "nop\n@db 1, 2\n@assert later == 2\n@defl later, 3\n",      # everything resolves, a deferred assertion is false
     "big": "@meta \"ID\" \"RAM\"\nvar:\n@endmeta\n@db 10\n@ds 3000, $ea\n@db 10, 1\n@ds 2000, $ea\n",      # several KiB, line-feed bytes early: partial writes show
 }
 ARCH_NOP = {"6502": "ea", "z80": "00", "sm83": "00"}
@@ -70,12 +71,14 @@ def run(tier, seed):
         src = PROGRAMS[prog]
         open(f"{root}/proj/src/main.asm", "w").write(src)
         open(f"{root}/libs/lib.inc", "w").write("@defn LIBV, 9\n")
-        files = {"/proj/src/main.asm": src.encode(), "/libs/lib.inc": b"@defn LIBV, 9\n"}
+        os.makedirs(f"{root}/alibs", exist_ok=True)
+        open(f"{root}/alibs/lib.inc", "w").write("@defn LIBV, 8\n")          # sorts before `libs`: only the order GIVEN counts
+        files = {"/proj/src/main.asm": src.encode(), "/libs/lib.inc": b"@defn LIBV, 9\n", "/alibs/lib.inc": b"@defn LIBV, 8\n"}
         opts = []
         msp = []
         if sp == "good":
-            opts += ["-I", "../libs"]
-            msp = ["../libs"]
+            opts += ["-I", "../libs", "-I", "../alibs"]
+            msp = ["../libs", "../alibs"]
         elif sp == "bad":
             opts += ["-I", "../libs", "-I", "../no-such-dir"]
             msp = ["../libs", "../no-such-dir"]
@@ -105,16 +108,19 @@ def run(tier, seed):
         elif placement == "after":
             argv = sub + opts
         else:
-            h = len(opts) // 2
-            h -= h % 2
-            argv = opts[:h] + sub + opts[h:]
+            # split the option GROUPS (all -I together, -o, -g) around the sub-command: the same
+            # option given on both sides at once is not a documented placement
+            n_i = sum(1 for o in opts if o == "-I") * 2
+            groups = ([opts[:n_i]] if n_i else []) + [opts[k:k + 2] for k in range(n_i, len(opts), 2)]
+            h = len(groups) // 2
+            argv = [x for g in groups[:h] for x in g] + sub + [x for g in groups[h:] for x in g]
         cwd = f"{root}/elsewhere"
         p = subprocess.run([C.AZ65_BIN] + argv, cwd=cwd, capture_output=True, timeout=60)
         written = {}
         for fn in os.listdir(cwd):
             written[fn] = open(os.path.join(cwd, fn), "rb").read()
         results.append((p.returncode, p.stdout, p.stderr, written, argv))
-        fspec = ";".join(f"{pth}={d.hex()}" for pth, d in files.items()) + ";/elsewhere/;/libs/;/proj/src/"
+        fspec = ";".join(f"{pth}={d.hex()}" for pth, d in files.items()) + ";/elsewhere/;/libs/;/alibs/;/proj/src/"
         model_lines.append(f"c{i}\tcli\t{arch}\t/elsewhere\t../proj/src/main.asm\t{';'.join(msp) if msp else '-'}\t{fspec}\t{'x' if omode == 'nodir' else 'w' if omode == 'devfull' else 1 if to_file else 0}\t{','.join(exports) if exports else '-'}")
     model = C.run_model(model_lines)
     hist = {}
